@@ -1,11 +1,10 @@
-\* intended behaviour (all switches TRUE): TLC must pass; PROG log on
+\* intended behaviour (all switches TRUE): TLC must pass
 \* family: every invocation within 2 changes of the plain one, plus the share C26_PART/C26_NPARTS of those with 3 changes
 CONSTANTS MaxDev = 2  SampleDev = 3  MaxPaths = 2  MaxModels = 2  MaxOpts = 2
           CliCountsTranslateFailures = TRUE  CliCatchesTranslateErrors = TRUE  CliCountsMissingModelFile = TRUE
-          Emit = TRUE  NParts <- NPartsEnv  Part <- PartEnv
+          Emit = FALSE  NParts <- NPartsEnv  Part <- PartEnv
 INIT Init
 NEXT Next
-ACTION_CONSTRAINT Log
 INVARIANT StatusIsCount
 INVARIANT NeverCrashes
 INVARIANT NoWorkAfterUsageError
